@@ -179,6 +179,8 @@ def legs(tier):
             strategy=deep_search_cases(), n_quick=320, n_thorough=8000, valid=valid_deep, floor=0.4),
         Leg("many-bins", evaluate, "hypothesis: ckk (mostly), snp, cg, kk with 5-6 bins on 5-8 items drawn from 2-4 small values; same rule",
             strategy=many_bins_cases(), n_quick=1200, n_thorough=24000, valid=valid_deep, floor=0.3),
+        Leg("large-inputs", evaluate, "hypothesis: the eleven cheap heuristics on 40-303 items (partitioners with 2-40 bins), ten output types; same oracle and rule",
+            strategy=cases.large_heuristic_cases(PRES), n_quick=600, n_thorough=12000, valid=cases.valid_large_case, floor=0.3),
         Leg("bc-search", evaluate, "hypothesis: bin_completion on planted 'hard' instances where its search is entered; same rule",
             strategy=bc_search_cases(), n_quick=300, n_thorough=6000, valid=valid, floor=0.4),
     ]
